@@ -37,6 +37,7 @@ GEN_TARGET = "OmplModel.Generated.SharedAccess"
 GEN_THEOREMS = ["OmplModel.Generated.SharedAccess.plain_members", "OmplModel.Generated.SharedAccess.surface_no_plain",
                 "OmplModel.Generated.SharedAccess.surface_counters_exact",
                 "OmplModel.Generated.SharedAccess.surface_adds_linearizable",
+                "OmplModel.Generated.SharedAccess.surface_add_clear_linearizable",
                 "OmplModel.Generated.SharedAccess.surface_seeds_distinct"]
 TSAN_ENV = {"TSAN_OPTIONS": "halt_on_error=0:exitcode=0:history_size=4:second_deadlock_stack=1:report_thread_leaks=0"}
 PLANNERS = ["pRRT", "pSBL", "CForest", "PRM", "APS"]
@@ -50,7 +51,7 @@ MEMBER_OPS = {
     "PlannerTerminationConditionImpl::signalThreadStop_": ["terminate"],
     "NearestNeighborsGNAT::": ["gnat"],
     "RNGSeedGenerator::": ["rng"],
-    "PlannerSolutionSet::": ["solutions"],
+    "PlannerSolutionSet::": ["solutions", "solmix", "solrace"],
     "AllocatedSpaces::": ["spaces"],
     "DefaultOutputHandler::": ["logging"],
 }
@@ -243,14 +244,37 @@ def judge_surface(op_line, out_line):
                 return "solution indices not distinct (%s of %s)" % (d["distinct_index"], d["final"])
             if d["shrink"] != "0":
                 return "a reader saw the solution set shrink (%s times)" % d["shrink"]
+        elif op == "solmix":
+            if d["resurrected"] != "0" or d["snap_resurrected"] != "0":
+                return ("%s solution(s) in the final set (%s in reader snapshots) whose addSolutionPath had returned before a "
+                        "clearSolutionPaths started: no sequential order of the calls keeps them"
+                        % (d["resurrected"], d["snap_resurrected"]))
+            if d["dropped"] != "0" or d["snap_dropped"] != "0":
+                return ("%s solution(s) missing from the final set (%s from reader snapshots) although they were added after "
+                        "every clearSolutionPaths had returned" % (d["dropped"], d["snap_dropped"]))
+            if d["unknown"] != "0" or d["duplicates"] != "0":
+                return "getSolutions() returned %s unknown / %s duplicated solutions" % (d["unknown"], d["duplicates"])
+            if d["sorted_ok"] != "1" or d["snapshots_unsorted"] != "0":
+                return "solution order violated (final sorted=%s, unsorted snapshots=%s)" % (d["sorted_ok"], d["snapshots_unsorted"])
+        elif op == "solrace":
+            if d["held"] != d["rounds"]:
+                return "the add under test never reached its sort (%s of %s rounds): scenario did not run" % (d["held"], d["rounds"])
+            if d["bad"] != "0":
+                return ("add(x) concurrent with clearSolutionPaths(); %s adds: in %s of %s rounds the final set {%s} is neither "
+                        "{101..} nor {101..}+{x} — cleared solutions resurrected / new ones dropped; no sequential order gives that"
+                        % (a[1], d["bad"], d["rounds"], d["first_bad"]))
         elif op == "logging":
             if d["received"] != d["sent"]:
                 return "%s messages sent, handlers received %s" % (d["sent"], d["received"])
             if d["getter_null"] != "0":
                 return "getOutputHandler() returned null %s times while a handler was always installed" % d["getter_null"]
         elif op == "terminate":
+            if a[2] == "2" and d["handshake"] != "1":
+                return "the periodic evaluation thread never entered the predicate: scenario did not run"
             if d["seen"] != d["pollers"]:
-                return "terminate() was seen by %s of %s polling threads" % (d["seen"], d["pollers"])
+                return ("terminate() was seen by %s of %s polling threads (form %s%s)" % (
+                    d["seen"], d["pollers"], {"0": "direct", "1": "periodic", "2": "periodic, predicate blocked inside its call "
+                                              "while terminate() arrived and answering false afterwards"}[a[2]], ""))
             if d["phantom"] != "0":
                 return "eval() returned true before terminate() was called (%s threads)" % d["phantom"]
             if d["sticky"] != "1":
@@ -464,20 +488,28 @@ def surface_ops(rng, tier, tsan):
         ops += ["gnat %d %d %d %d %d" % (T(2, 8), 600, 40 if not big else 120, rng.range(1, 8), rng.below(1000))]
         ops += ["rng %d %d" % (T(2, 12), 60)]
         ops += ["spaces %d %d 0" % (T(2, 10), 40), "spaces %d %d 1" % (T(2, 6), 40)]
+        ops += ["gnat %d %d %d %d %d %d 1" % (T(4, 8), rng.choice([200, 400]), 40, rng.range(1, 6), rng.below(1000), 2)]
         ops += ["solutions %d %d %d" % (T(2, 8), rng.range(1, 3), 40)]
+        ops += ["solmix %d %d %d %d %d" % (T(2, 6), rng.range(1, 2), rng.range(1, 2), 60, rng.below(1000))]
+        ops += ["solrace %d 2" % rng.range(2, 8)]
         ops += ["logging %d %d" % (T(2, 8), 200)]
-        ops += ["terminate %d 0" % T(2, 8), "terminate %d 1" % T(2, 6)]
+        ops += ["terminate %d 0" % T(2, 8), "terminate %d 1" % T(2, 6), "terminate %d 2" % T(2, 6)]
     else:
         reps = 2 if not big else 5
         for _ in range(reps):
             ops += ["force %d %d %d" % (T(), 1500 if not big else 6000, rng.choice([20, 50, 100]))]
             ops += ["counters %d %d %d" % (T(), 1500 if not big else 6000, rng.below(1000))]
             ops += ["gnat %d %d %d %d %d" % (T(), rng.choice([500, 3000]), 150 if not big else 500, rng.range(1, 10), rng.below(1000))]
+            # many internal nodes (degree 4, leaves of 8), many threads, every query many times
+            ops += ["gnat %d %d %d %d %d %d 1" % (T(8, 16), rng.choice([200, 600, 2000]), 120, rng.range(1, 10), rng.below(1000),
+                                                  6 if not big else 20)]
             ops += ["rng %d %d" % (T(), 400)]
             ops += ["spaces %d %d 0" % (T(), 200), "spaces %d %d 1" % (T(), 100)]
             ops += ["solutions %d %d %d" % (T(2, 12), rng.range(1, 4), 150)]
+            ops += ["solmix %d %d %d %d %d" % (T(2, 10), rng.range(1, 3), rng.range(1, 3), 300, rng.below(1000))]
+            ops += ["solrace %d %d" % (rng.range(1, 12), 3)]
             ops += ["logging %d %d" % (T(), 1500)]
-            ops += ["terminate %d 0" % T(), "terminate %d 1" % T(2, 8)]
+            ops += ["terminate %d 0" % T(), "terminate %d 1" % T(2, 8), "terminate %d 2" % T(2, 8)]
     return ops
 
 
